@@ -665,7 +665,7 @@ SER_SCOPE = ("epserde/src/ser/", "epserde/src/impls/")
 def check_C12(ctx):
     rep = ctx.rep
     rep.rule("ALIGN-GUARD", "the slice-backed align returns Ok only after establishing `address of remaining data % unit(T) == 0` (checked after the skip) and AlignmentError exactly otherwise")
-    rep.rule("W4(eps)", "every block carved by an eps reader is immediately preceded by align::<T'> with unit(T') = unit(T), its result propagated")
+    rep.rule("W4", "every block carved by an eps reader is immediately preceded by align::<T'> with unit(T') = unit(T), its result propagated")
     rep.rule("S-WHO", "Error::AlignmentError is constructed only by the slice-backed align and by load_mem's pre-check")
     rep.rule("LOADMEM-PRECHECK", "load_mem rejects types whose native alignment exceeds that of the heap region, before touching the file")
     rep.rule("M1", "unit(T) >= align_of::<T>() and a power of two for the universe of closed zero-copy types (so `multiple of the unit` implies `aligned for the type`)")
@@ -695,7 +695,7 @@ def check_C03(ctx):
     rep.rule("PROV", "on every eps path that consumes a raw block, the returned value is a reinterpretation (align_to / index / str transmute) of exactly the bytes consumed at the cursor")
     rep.rule("HEAPFREE", "such paths contain no call into `alloc` and build no vector")
     rep.rule("RAW-CARVE", "no eps reader builds slices or pointers from the input buffer by hand (from_raw_parts / pointer arithmetic on backend.data)")
-    rep.rule("W1/W4(eps)", "the block has the written length (count linked to the length prefix) and is preceded by the alignment point of its unit")
+    rep.rule("W1 / W4", "the block has the written length (count linked to the length prefix) and is preceded by the alignment point of its unit")
     rep.rule("ALIGN-GUARD", "the alignment point of the slice-backed reader checks the absolute address")
     ts = wire_props(ctx, ("eps",), ("W1", "W4", "PROB"), 56, w4_sides=("eps",), prob_sides=("eps",))
     u = ctx.universe("default", CORPUS)
@@ -712,15 +712,15 @@ def check_C11(ctx):
     rep.rule("P-ERR", "in deser/ and impls/: no Result of a read is discarded, tested-and-forgotten (is_ok/ok) or defaulted")
     rep.rule("S-WHO", "std::io::Read::read (the short-read form) is not called in deser/ and impls/")
     rep.rule("RAW-CARVE", "eps readers touch the input only through bounds-checked slicing/indexing (no from_raw_parts / get_unchecked on backend.data); unknown uses of the backend are reported")
-    rep.rule("CURSOR", "every peek is consumed by a skip of the same amount and the position advances by the same amount (nothing is read twice or past the cursor)")
+    rep.rule("WIRE-*", "every peek is consumed by a skip of the same amount and the position advances by the same amount (nothing is read twice or past the cursor)")
     rep.rule("MAPLEN", "the mmap loader maps the file from offset 0 for exactly metadata().len() bytes (no rounding: the kernel zero-extends a longer mapping to the page end)")
     ts = wire_props(ctx, ("full", "eps"), ("W1", "PROB"), 56)
     u = ctx.universe("default", CORPUS)
     rules_eps.rule_eps_borrow(u, ts, rep, props=("raw",))
-    n = rules_err.rule_PERR(u, rep, DESER_SCOPE)
+    n = rules_err.rule_PERR(u, rep, DESER_SCOPE, errs=rules_err.DESER_ERRS)
     rep.floor("Result-returning call sites in deser/impls", n, 60)
     rep.rule("ERR-DROP", "MIR after drop elaboration: no Result<_, crate error> produced by a call or assignment reaches the Drop of its local (scope end or overwrite) on a normal path without having been moved, matched or borrowed")
-    nd = rules_err.rule_err_drop(u, rep, DESER_SCOPE)
+    nd = rules_err.rule_err_drop(u, rep, DESER_SCOPE, errs=rules_err.DESER_ERRS)
     rep.floor("Result-typed MIR locals tracked in deser/impls", nd, 100)
     rules_err.rule_who_calls(u, rep, {"std::io::Read::read", "std::io::Read::read_to_end", "std::io::Read::read_buf"}, DESER_SCOPE, "S-WHO",
                              "short reads must be handled by read_exact, whose contract turns a premature end of file into an error")
@@ -798,7 +798,7 @@ def check_C09(ctx):
     rep.rule("ALLOC-LAYOUT", "load_mem: alloc(Layout(S, A)) handed to Vec<E>::from_raw_parts(_, len, cap) with A == align_of::<E>(), cap == S / size_of::<E>() exactly, len == cap (E = element type of MemBackend::Memory): released as allocated")
     rep.rule("SHAPE", "drop order structure -> backend by declaration order, no Drop impl, no API that separates the structure from its backend")
     rep.rule("WITNESS", "compile-fail probes: borrowed eps results cannot outlive their buffer; references obtained from a MemCase cannot outlive it")
-    rep.rule("S-WHO", "no forget / leak / into_raw / ManuallyDrop on a backend")
+    rep.rule("S-WHO", "no forget / leak / into_raw / ManuallyDrop in the loaders and the MemCase module (where backends are created and owned)")
     u = ctx.universe("default")
     n = rules_loader.rule_loader_paths(u, rep, want=("LEAK", "RAW"))
     rep.floor("loaders analysed", n, 3)
@@ -820,7 +820,7 @@ def check_C09(ctx):
     # nobody forgets / leaks a backend
     bad = 0
     for b in u.bodies.values():
-        if b.d.get("krate") != "epserde" or b.thir is None or not rules_err.in_scope(b, ("epserde/src/deser/",)):
+        if b.d.get("krate") != "epserde" or b.thir is None or not rules_err.in_scope(b, ("epserde/src/deser/mod.rs", "epserde/src/deser/mem_case.rs")):
             continue
         acc = []
         rules_err.calls_in(b.crate, b.thir["root"], acc)
@@ -844,14 +844,14 @@ def check_C13(ctx):
     rep.rule("ALIAS-OWNER", "an owning container built over borrowed memory is wrapped in ManuallyDrop at creation or forgotten before any fallible step")
     rep.rule("BLANKET", "the blanket WriteNoStd impl calls exactly Write::write_all / Write::flush and maps their result")
     u = ctx.universe("default", CORPUS)
-    n = rules_err.rule_PERR(u, rep, SER_SCOPE)
+    n = rules_err.rule_PERR(u, rep, SER_SCOPE, errs=rules_err.SER_ERRS)
     rep.floor("Result-returning call sites in ser/impls", n, 60)
     rep.rule("ERR-DROP", "MIR after drop elaboration: no Result<_, crate error> produced by a call or assignment reaches the Drop of its local (scope end or overwrite) on a normal path without having been moved, matched or borrowed")
-    nd = rules_err.rule_err_drop(u, rep, SER_SCOPE)
+    nd = rules_err.rule_err_drop(u, rep, SER_SCOPE, errs=rules_err.SER_ERRS)
     rep.floor("Result-typed MIR locals tracked in ser/impls", nd, 100)
     rules_err.rule_who_calls(u, rep, {"std::io::Write::write", "std::io::Write::write_vectored"}, SER_SCOPE, "S-WHO",
                              "short writes must be handled by write_all")
-    m = rules_loader.rule_err_to_ok(u, rep, SER_SCOPE)
+    m = rules_loader.rule_err_to_ok(u, rep, SER_SCOPE, errs=rules_err.SER_ERRS)
     rep.floor("Result-returning functions path-checked", m, 60)
     k = rules_loader.rule_alias_owner(u, rep, SER_SCOPE)
     rep.floor("aliasing owners analysed", k, 1)
@@ -879,19 +879,19 @@ def check_C13(ctx):
 def check_C14(ctx):
     rep = ctx.rep
     rep.rule("S-WHO", "std::io::Read::read (short-read form) is never called in deser/ and impls/: fragmentation and Interrupted are delegated to read_exact's contract")
-    rep.rule("P-ERR", "in deser/ and impls/: no Result is discarded, tested-and-forgotten or defaulted")
+    rep.rule("P-ERR", "in deser/ and impls/, functions of the stream (full-copy) side: no Result is discarded, tested-and-forgotten or defaulted")
     rep.rule("ERR-TO-OK", "no function of deser/ and impls/ returns Ok on a path where it has observed the Err of a callee")
     rep.rule("UNINIT", "set_len that exposes uninitialised elements before a fallible step only for element types without drop glue")
     rep.rule("BLANKET", "the blanket ReadNoStd impl calls exactly Read::read_exact and maps its result")
     u = ctx.universe("default", CORPUS)
     rules_err.rule_who_calls(u, rep, {"std::io::Read::read", "std::io::Read::read_to_end", "std::io::Read::read_buf", "std::io::Read::read_vectored"}, DESER_SCOPE, "S-WHO",
                              "short reads must be handled by read_exact")
-    n = rules_err.rule_PERR(u, rep, DESER_SCOPE)
+    n = rules_err.rule_PERR(u, rep, DESER_SCOPE, errs=rules_err.DESER_ERRS, exclude_fn=rules_err.takes_slice_cursor)
     rep.floor("Result-returning call sites in deser/impls", n, 60)
     rep.rule("ERR-DROP", "MIR after drop elaboration: no Result<_, crate error> produced by a call or assignment reaches the Drop of its local (scope end or overwrite) on a normal path without having been moved, matched or borrowed")
-    nd = rules_err.rule_err_drop(u, rep, DESER_SCOPE)
+    nd = rules_err.rule_err_drop(u, rep, DESER_SCOPE, errs=rules_err.DESER_ERRS, exclude_fn=rules_err.takes_slice_cursor)
     rep.floor("Result-typed MIR locals tracked in deser/impls", nd, 100)
-    rules_loader.rule_err_to_ok(u, rep, DESER_SCOPE)
+    rules_loader.rule_err_to_ok(u, rep, DESER_SCOPE, errs=rules_err.DESER_ERRS, exclude_fn=rules_err.takes_slice_cursor)
     k = rules_loader.rule_uninit_exposed(u, rep, DESER_SCOPE)
     rep.floor("set_len sites analysed", k, 1)
     nb = 0
